@@ -154,6 +154,9 @@ class RealConn(object):
             validate_inbound_headers=bool(op.get('vi', 1)),
             normalize_inbound_headers=bool(op.get('ni', 1)))
         self.conn = h2.connection.H2Connection(config=cfg)
+        if op.get('ls'):
+            from h2.settings import Settings
+            self.conn.local_settings = Settings(client=bool(op['client']), initial_values=dict(op['ls']))
         self.enc = EncTap(self.conn.encoder)
         self.dec = DecTap(self.conn.decoder)
         self.conn.encoder = self.enc
